@@ -97,6 +97,13 @@ func c06Inputs() []c06Input {
 		jr.T("2020-03-31", "d3", jr.B(accOpening, accCash, "1", "USD"), jr.B(accCash, accOpening, "1", "EUR")),
 	})
 	in = append(in, c06Input{Name: "weights-crossed", Files: map[string]string{"j.knut": crossed}, Args: []string{"portfolio", "weights", "-v", "CHF", "--color=false", "--months", "j.knut"}})
+	// a file reached over two paths four levels down (loaded twice by design, never a cycle)
+	deep := map[string]string{
+		"root.knut": "include \"y.knut\"\n2020-01-01 open Assets:A\n", "y.knut": "include \"q.knut\"\n2020-01-01 open Expenses:Food\n",
+		"q.knut": "include \"x.knut\"\ninclude \"p.knut\"\n2020-01-05 \"t\"\nAssets:A Expenses:Food 1 CHF\n\n", "x.knut": "2020-01-03 price EUR 1.1 CHF\ninclude \"p.knut\"\n",
+		"p.knut": "2020-01-02 price USD 0.9 CHF\n",
+	}
+	in = append(in, c06Input{Name: "deep-diamond-print", Files: deep, Args: []string{"print", "root.knut"}})
 	// infer with two equally likely candidates
 	training := "2020-01-01 open Assets:A\n2020-01-02 \"shop\"\nAssets:A Expenses:Food 10 CHF\n\n2020-01-03 \"shop\"\nAssets:A Expenses:Rent 10 CHF\n\n"
 	target := "2020-02-01 \"shop\"\nAssets:A Expenses:TBD 10 CHF\n\n2020-02-02 \"other\"\nExpenses:TBD Assets:A 5 CHF\n\n"
